@@ -1,6 +1,7 @@
 pub mod crash;
 pub mod history;
 pub mod oneshot;
+pub mod watch;
 
 use crate::engine::{Property, Stats};
 use crate::model::{self, Tid};
@@ -14,6 +15,7 @@ pub fn all() -> Vec<Box<dyn Property>> {
     let mut v = oneshot::all();
     v.extend(history::all());
     v.push(Box::new(crash::C05));
+    v.extend(watch::all());
     v
 }
 
